@@ -85,18 +85,21 @@ fn table(w: &DataWriterQos, p: &PublisherQos, r: &DataReaderQos, s: &SubscriberQ
     m
 }
 
-// ---- recorded findings: exact triggers -----------------------------------------------------------
-/// KF-C15-1: the derived lexicographic `PartialOrd` of LivelinessQosPolicy decides the pair
-/// differently from the table exactly when: kinds equal and leases differ, or offered kind above
-/// the requested kind and offered lease longer than the requested lease.
+// ---- regions of two defects found by these checks and repaired (fixed: KF-C15-1, KF-C15-2) -------
+// They are used ONLY to focus two regression harnesses and as cover witnesses; no assertion is
+// weakened by them.
+/// Region of the repaired KF-C15-1 (liveliness used to be compared by the derived lexicographic
+/// `PartialOrd`): kinds equal and leases differ, or offered kind above the requested kind and
+/// offered lease longer than the requested lease.
 fn trigger_liveliness(w: &DataWriterQos, r: &DataReaderQos) -> bool {
     let ok = sq::liveliness_rank(w.liveliness.kind);
     let rk = sq::liveliness_rank(r.liveliness.kind);
     (ok == rk && w.liveliness.lease_duration != r.liveliness.lease_duration)
         || (ok > rk && !sq::dur_le(&w.liveliness.lease_duration, &r.liveliness.lease_duration))
 }
-/// KF-C15-2: presentation is compatible per the table (everything requested is offered) but the
-/// publisher offers coherent_access or ordered_access that the subscriber did not request.
+/// Region of the repaired KF-C15-2 (flags used to be compared with `!=`): presentation is compatible
+/// per the table (everything requested is offered) but the publisher offers coherent_access or
+/// ordered_access that the subscriber did not request.
 fn trigger_presentation(p: &PublisherQos, s: &SubscriberQos) -> bool {
     presentation_compatible(p, s)
         && ((p.presentation.coherent_access && !s.presentation.coherent_access)
@@ -163,27 +166,18 @@ fn check_pair(w: &DataWriterQos, p: &PublisherQos, r: &DataReaderQos, s: &Subscr
     assert!(m1 == m2, "C15: writer side and reader side name the same offending policies");
 
     // every policy against the table
-    let mut ignore = 0u32;
-    if t1 {
-        ignore |= bit(LIVELINESS_QOS_POLICY_ID);
-    }
-    if t2 {
-        ignore |= bit(PRESENTATION_QOS_POLICY_ID);
-    }
-    let diff = (m1 ^ expect) & !ignore;
+    let diff = m1 ^ expect;
     assert!(diff & bit(DURABILITY_QOS_POLICY_ID) == 0, "C15: durability verdict equals the DDS table");
-    assert!(diff & bit(PRESENTATION_QOS_POLICY_ID) == 0, "C15: presentation verdict equals the DDS table (outside KF-C15-2)");
+    assert!(diff & bit(PRESENTATION_QOS_POLICY_ID) == 0, "C15: presentation verdict equals the DDS table");
     assert!(diff & bit(DEADLINE_QOS_POLICY_ID) == 0, "C15: deadline verdict equals the DDS table");
     assert!(diff & bit(LATENCYBUDGET_QOS_POLICY_ID) == 0, "C15: latency budget verdict equals the DDS table");
-    assert!(diff & bit(LIVELINESS_QOS_POLICY_ID) == 0, "C15: liveliness verdict equals the DDS table (outside KF-C15-1)");
+    assert!(diff & bit(LIVELINESS_QOS_POLICY_ID) == 0, "C15: liveliness verdict equals the DDS table (kind and lease duration separately)");
     assert!(diff & bit(RELIABILITY_QOS_POLICY_ID) == 0, "C15: reliability verdict equals the DDS table");
     assert!(diff & bit(DESTINATIONORDER_QOS_POLICY_ID) == 0, "C15: destination order verdict equals the DDS table");
     assert!(diff & bit(OWNERSHIP_QOS_POLICY_ID) == 0, "C15: ownership verdict equals the DDS table");
     assert!(diff & bit(DATA_REPRESENTATION_QOS_POLICY_ID) == 0, "C15: data representation verdict equals the DDS table");
-    if !t1 && !t2 {
-        assert!((expect != 0) == (n1 != 0), "C15: incompatible per the table <=> non-empty list");
-        assert!(m1 == expect && m2 == expect, "C15: the list names exactly the offending policies");
-    }
+    assert!((expect != 0) == (n1 != 0), "C15: incompatible per the table <=> non-empty list");
+    assert!(m1 == expect && m2 == expect, "C15: the list names exactly the offending policies");
     (m1, expect, t1, t2)
 }
 
@@ -204,7 +198,7 @@ fn check_pair(w: &DataWriterQos, p: &PublisherQos, r: &DataReaderQos, s: &Subscr
 // @enc infrastructure::time::DurationKind::partial_cmp
 #[kani::proof]
 #[kani::unwind(10)]
-fn c15_rxo_group1_durability_deadline_latency__rest() {
+fn c15_rxo_group1_durability_deadline_latency() {
     let mut w = DataWriterQos::const_default();
     let mut r = DataReaderQos::const_default();
     w.durability.kind = sq::any_durability();
@@ -228,15 +222,15 @@ fn c15_rxo_group1_durability_deadline_latency__rest() {
 }
 
 // @check props=C15 tier=quick
-// @desc group 2 (liveliness kind + lease, presentation scope + coherent + ordered symbolic on both sides): exact offending set per the DDS table on both sides and agreement of the two sides; the liveliness / presentation verdicts are compared with the table outside the recorded triggers KF-C15-1 / KF-C15-2 (the *__known harnesses keep those); agreement of the two sides is asserted everywhere, inside the triggers too
+// @desc group 2 (liveliness kind + lease, presentation scope + coherent + ordered symbolic on both sides): exact offending set per the DDS table on both sides (liveliness: offered kind >= requested kind AND offered lease <= requested lease, separately; presentation: requested flag FALSE or both TRUE) and agreement of the two sides - asserted everywhere, including the regions of the two defects these checks found and that were repaired (fixed: KF-C15-1, KF-C15-2)
 // @bounds none on the scalars of the group: 3 liveliness kinds, lease Infinite or Finite(any i32 sec, any nanosec < 10^9), 2 access scopes x coherent x ordered, each on both sides; the other policies at their defaults. unwind 10
-// @assume liveliness bit compared only if NOT trigger KF-C15-1; presentation bit compared only if NOT trigger KF-C15-2 (negations of the recorded triggers); nanosec < 10^9
+// @assume nanosec < 10^9 (Duration::new normalizes)
 // @enc dcps::dcps_domain_participant::discovery_methods::get_discovered_reader_incompatible_qos_policy_list
 // @enc dcps::dcps_domain_participant::discovery_methods::get_discovered_writer_incompatible_qos_policy_list
 // @enc infrastructure::qos_policy (PartialOrd impls of the policy kinds / policies)
 #[kani::proof]
 #[kani::unwind(10)]
-fn c15_rxo_group2_liveliness_presentation__rest() {
+fn c15_rxo_group2_liveliness_presentation() {
     let mut w = DataWriterQos::const_default();
     let mut r = DataReaderQos::const_default();
     w.liveliness.kind = sq::any_liveliness();
@@ -250,13 +244,14 @@ fn c15_rxo_group2_liveliness_presentation__rest() {
 
     let (m1, expect, t1, t2) = check_pair(&w, &p, &r, &s);
 
-    kani::cover!(!t1 && !t2 && expect == 0 && m1 == 0, "fully compatible pair");
-    kani::cover!(!t1 && !t2 && m1 == (bit(LIVELINESS_QOS_POLICY_ID) | bit(PRESENTATION_QOS_POLICY_ID)), "both policies of the group incompatible at once");
-    kani::cover!(!t1 && !t2 && m1 == bit(LIVELINESS_QOS_POLICY_ID), "only liveliness incompatible (offered kind below requested kind)");
-    kani::cover!(!t1 && !t2 && expect == 0 && sq::liveliness_rank(w.liveliness.kind) > sq::liveliness_rank(r.liveliness.kind), "stronger offered liveliness kind with a lease not longer than requested");
-    kani::cover!(!t1 && !t2 && m1 == bit(PRESENTATION_QOS_POLICY_ID), "only presentation incompatible (outside the trigger)");
-    kani::cover!(t1, "liveliness trigger region reachable (verdict compared by the __known harness, agreement here)");
-    kani::cover!(t2, "presentation trigger region reachable (verdict compared by the __known harness, agreement here)");
+    kani::cover!(expect == 0 && m1 == 0, "fully compatible pair");
+    kani::cover!(m1 == (bit(LIVELINESS_QOS_POLICY_ID) | bit(PRESENTATION_QOS_POLICY_ID)), "both policies of the group incompatible at once");
+    kani::cover!(m1 == bit(LIVELINESS_QOS_POLICY_ID) && sq::liveliness_rank(w.liveliness.kind) < sq::liveliness_rank(r.liveliness.kind), "only liveliness incompatible: offered kind below requested kind");
+    kani::cover!(t1 && m1 == bit(LIVELINESS_QOS_POLICY_ID), "only liveliness incompatible: offered lease longer than requested (region of the repaired KF-C15-1)");
+    kani::cover!(t1 && expect == 0 && m1 == 0, "equal kinds, shorter offered lease: compatible (region of the repaired KF-C15-1)");
+    kani::cover!(expect == 0 && sq::liveliness_rank(w.liveliness.kind) > sq::liveliness_rank(r.liveliness.kind), "stronger offered liveliness kind with a lease not longer than requested");
+    kani::cover!(m1 == bit(PRESENTATION_QOS_POLICY_ID), "only presentation incompatible");
+    kani::cover!(t2 && expect == 0 && m1 == 0, "offered but not requested coherent/ordered access: compatible (region of the repaired KF-C15-2)");
     core::mem::forget((w, r, p, s));
 }
 
@@ -267,7 +262,7 @@ fn c15_rxo_group2_liveliness_presentation__rest() {
 // @enc dcps::dcps_domain_participant::discovery_methods::get_discovered_writer_incompatible_qos_policy_list
 #[kani::proof]
 #[kani::unwind(10)]
-fn c15_rxo_group3_reliability_order_ownership__rest() {
+fn c15_rxo_group3_reliability_order_ownership() {
     let mut w = DataWriterQos::const_default();
     let mut r = DataReaderQos::const_default();
     w.reliability.kind = sq::any_reliability();
@@ -297,7 +292,7 @@ fn c15_rxo_group3_reliability_order_ownership__rest() {
 // @enc dcps::dcps_domain_participant::discovery_methods::get_discovered_writer_incompatible_qos_policy_list
 #[kani::proof]
 #[kani::unwind(10)]
-fn c15_rxo_cross_a__rest() {
+fn c15_rxo_cross_a() {
     let mut w = DataWriterQos::const_default();
     let mut r = DataReaderQos::const_default();
     w.durability.kind = sq::any_durability();
@@ -317,14 +312,14 @@ fn c15_rxo_cross_a__rest() {
 }
 
 // @check props=C15 tier=thorough timeout=1800
-// @desc cross-group obligation: liveliness, latency budget, destination order and presentation symbolic at once on both sides (four conditional pushes): exact offending set outside the recorded triggers, both sides agree everywhere
+// @desc cross-group obligation: liveliness, latency budget, destination order and presentation symbolic at once on both sides (four conditional pushes): exact offending set, both sides agree
 // @bounds 3 liveliness kinds, lease and latency budget Infinite or Finite(any i32 sec, any nanosec < 10^9), 2 destination-order kinds, presentation scope x coherent x ordered on both sides; others default. unwind 10
-// @assume liveliness bit compared only if NOT trigger KF-C15-1; presentation bit compared only if NOT trigger KF-C15-2; nanosec < 10^9
+// @assume nanosec < 10^9 (Duration::new normalizes)
 // @enc dcps::dcps_domain_participant::discovery_methods::get_discovered_reader_incompatible_qos_policy_list
 // @enc dcps::dcps_domain_participant::discovery_methods::get_discovered_writer_incompatible_qos_policy_list
 #[kani::proof]
 #[kani::unwind(10)]
-fn c15_rxo_cross_b__rest() {
+fn c15_rxo_cross_b() {
     let mut w = DataWriterQos::const_default();
     let mut r = DataReaderQos::const_default();
     w.liveliness.kind = sq::any_liveliness();
@@ -340,8 +335,8 @@ fn c15_rxo_cross_b__rest() {
     let mut s = SubscriberQos::const_default();
     s.presentation = sq::any_presentation();
     let (m1, expect, t1, t2) = check_pair(&w, &p, &r, &s);
-    kani::cover!(!t1 && !t2 && expect == 0 && m1 == 0, "fully compatible pair");
-    kani::cover!(!t1 && !t2 && m1 == (bit(LIVELINESS_QOS_POLICY_ID) | bit(LATENCYBUDGET_QOS_POLICY_ID) | bit(DESTINATIONORDER_QOS_POLICY_ID) | bit(PRESENTATION_QOS_POLICY_ID)), "all four incompatible at once");
+    kani::cover!(expect == 0 && m1 == 0 && (t1 || t2), "fully compatible pair inside a repaired-defect region");
+    kani::cover!(m1 == (bit(LIVELINESS_QOS_POLICY_ID) | bit(LATENCYBUDGET_QOS_POLICY_ID) | bit(DESTINATIONORDER_QOS_POLICY_ID) | bit(PRESENTATION_QOS_POLICY_ID)), "all four incompatible at once");
     core::mem::forget((w, r, p, s));
 }
 
@@ -375,7 +370,7 @@ fn representation_case(wn: usize, rn: usize) -> (u32, u32, u16, u16, u16, u16) {
 // @enc dcps::dcps_domain_participant::discovery_methods::get_discovered_writer_incompatible_qos_policy_list
 #[kani::proof]
 #[kani::unwind(10)]
-fn c15_rxo_group4_representation__rest() {
+fn c15_rxo_group4_representation() {
     let (m, e, _, _, _, _) = representation_case(0, 0);
     kani::cover!(e == 0 && m == 0, "both lists empty: XCDR matches XCDR");
     let (m, _e, a, _, _, _) = representation_case(1, 0);
@@ -398,7 +393,7 @@ fn c15_rxo_group4_representation__rest() {
 // @enc dcps::dcps_domain_participant::discovery_methods::get_discovered_writer_incompatible_qos_policy_list
 #[kani::proof]
 #[kani::unwind(10)]
-fn c15_rxo_group4_representation_b__rest() {
+fn c15_rxo_group4_representation_b() {
     let (m, e, a, _, c, _) = representation_case(1, 1);
     kani::cover!(e == 0 && m == 0 && a == c && a != XCDR_DATA_REPRESENTATION, "equal non-XCDR single entries match");
     let (m, _e, _, _, c, d) = representation_case(0, 2);
@@ -410,16 +405,16 @@ fn c15_rxo_group4_representation_b__rest() {
     kani::cover!(m == bit(DATA_REPRESENTATION_QOS_POLICY_ID) && (b == c || b == d), "only the writer's second entry would match");
 }
 
-// @check props=C15 tier=quick known=KF-C15-1
-// @desc KF-C15-1: inside the trigger (equal liveliness kinds with different lease durations, or offered kind above the requested kind with a longer offered lease) the liveliness verdict of both real functions is compared with the DDS table (offered kind >= requested kind AND offered lease <= requested lease) - expected to FAIL: the derived lexicographic PartialOrd of LivelinessQosPolicy compares the lease only on equal kinds and in the wrong direction
+// @check props=C15 tier=quick
+// @desc regression obligation for the repaired KF-C15-1, focused on its region (equal liveliness kinds with different lease durations, or offered kind above the requested kind with a longer offered lease): the liveliness verdict of both real functions equals the DDS table (offered kind >= requested kind AND offered lease <= requested lease)
 // @bounds liveliness kind (3 values) and lease duration (Infinite or Finite(any i32, any nanosec < 10^9)) symbolic on both sides; all other policies default. unwind 10
-// @assume trigger KF-C15-1: (kinds equal and leases differ) or (offered kind > requested kind and offered lease > requested lease)
+// @assume focus region: (kinds equal and leases differ) or (offered kind > requested kind and offered lease > requested lease); the complement is covered by c15_rxo_group2_liveliness_presentation, which asserts the same oracle without this restriction
 // @enc dcps::dcps_domain_participant::discovery_methods::get_discovered_reader_incompatible_qos_policy_list
 // @enc dcps::dcps_domain_participant::discovery_methods::get_discovered_writer_incompatible_qos_policy_list
-// @enc infrastructure::qos_policy::LivelinessQosPolicy (derived PartialOrd)
+// @enc infrastructure::qos_policy::LivelinessQosPolicyKind::partial_cmp
 #[kani::proof]
 #[kani::unwind(10)]
-fn c15_liveliness_lease__known() {
+fn c15_liveliness_lease() {
     let mut w = DataWriterQos::const_default();
     let mut r = DataReaderQos::const_default();
     w.liveliness.kind = sq::any_liveliness();
@@ -432,22 +427,22 @@ fn c15_liveliness_lease__known() {
     kani::assume(trigger_liveliness(&w, &r));
     let expect = table(&w, &p, &r, &s);
     let v = run_both(&w, &p, &r, &s);
-    kani::cover!(expect == 0, "trigger with a compatible pair (equal kinds, shorter offered lease)");
-    kani::cover!(expect != 0, "trigger with an incompatible pair (longer offered lease)");
+    kani::cover!(expect == 0, "compatible pair in the region (equal kinds, shorter offered lease)");
+    kani::cover!(expect != 0, "incompatible pair in the region (longer offered lease)");
     assert!(v.writer_side.0 == expect, "C15: liveliness verdict equals the DDS table (kind and lease duration separately), writer side");
     assert!(v.reader_side.0 == expect, "C15: liveliness verdict equals the DDS table (kind and lease duration separately), reader side");
     core::mem::forget((w, r, p, s));
 }
 
-// @check props=C15 tier=quick known=KF-C15-2
-// @desc KF-C15-2: inside the trigger (everything the subscriber requests is offered, and the publisher additionally offers coherent_access or ordered_access that was not requested) the presentation verdict of both real functions is compared with the DDS table (§2.2.3.6: requested flag FALSE, or both TRUE) - expected to FAIL: both functions test the flags with `!=`
+// @check props=C15 tier=quick
+// @desc regression obligation for the repaired KF-C15-2, focused on its region (everything the subscriber requests is offered, and the publisher additionally offers coherent_access or ordered_access that was not requested): both real functions report the pair compatible (DDS 2.2.3.6: requested flag FALSE, or both TRUE)
 // @bounds access scope x coherent x ordered symbolic on both sides; all other policies default. unwind 10
-// @assume trigger KF-C15-2: presentation compatible per the table and (offered coherent and not requested, or offered ordered and not requested)
+// @assume focus region: presentation compatible per the table and (offered coherent and not requested, or offered ordered and not requested); unrestricted in c15_rxo_group2_liveliness_presentation
 // @enc dcps::dcps_domain_participant::discovery_methods::get_discovered_reader_incompatible_qos_policy_list
 // @enc dcps::dcps_domain_participant::discovery_methods::get_discovered_writer_incompatible_qos_policy_list
 #[kani::proof]
 #[kani::unwind(10)]
-fn c15_presentation_flags__known() {
+fn c15_presentation_flags() {
     let w = DataWriterQos::const_default();
     let r = DataReaderQos::const_default();
     let mut p = PublisherQos::const_default();
@@ -457,7 +452,7 @@ fn c15_presentation_flags__known() {
     kani::assume(trigger_presentation(&p, &s));
     let expect = table(&w, &p, &r, &s);
     let v = run_both(&w, &p, &r, &s);
-    kani::cover!(expect == 0, "trigger region reachable: compatible per the table");
+    kani::cover!(expect == 0, "region reachable: compatible per the table");
     assert!(v.writer_side.0 == expect, "C15: presentation verdict equals the DDS table (offered-but-not-requested flags are compatible), writer side");
     assert!(v.reader_side.0 == expect, "C15: presentation verdict equals the DDS table (offered-but-not-requested flags are compatible), reader side");
     core::mem::forget((w, r, p, s));
